@@ -65,6 +65,15 @@ def float_of(s: str) -> float:
     return float(int(s))
 
 
+def lim(s: str):
+    """a limit token: an int, or `d` = do not name the limit (the class's default applies)"""
+    return None if s == "d" else intd(s)
+
+
+def flo(s: str):
+    return None if s == "d" else float_of(s)
+
+
 def intd(s: str) -> int:
     try:
         return int(s)
@@ -194,6 +203,9 @@ class C18(Prop):
         mr = rng.choice(self.LIMS)
         decay = rng.choice(self.DECAYS)
         real = rng.random() < 0.35
+        if rng.random() < 0.08:           # limit / decay not named: the defaults of the class
+            gs, fs = self._heal_scripts(rng, 3, real)
+            return f"heal d {rng.choice(['d', decay])} {'real' if real else 'stub'} {gs} {fs}"
         gs, fs = self._heal_scripts(rng, mr, real)
         return f"heal {mr} {decay} {'real' if real else 'stub'} {gs} {fs}"
 
@@ -204,6 +216,8 @@ class C18(Prop):
         mr = rng.choice(self.LIMS)
         real = rng.random() < 0.3
         lines = [f"loop {mr} {rng.choice(self.DECAYS)} {'real' if real else 'stub'}"]
+        if rng.random() < 0.1:
+            mr, lines = 3, [f"loop d d {'real' if real else 'stub'}"]
         for _ in range(rng.choice([1, 2, 2, 3, 4])):
             r = rng.random()
             if r < 0.65:
@@ -259,6 +273,10 @@ class C18(Prop):
     def _gen_swarm(self, rng):
         mreg, ms = rng.choice(self.LIMS), rng.choice(self.LIMS + [10])
         lines = [f"swarm {mreg} {ms} {rng.choice(self.THRS)}"]
+        if rng.random() < 0.08:
+            which = rng.choice(["dd", "d.", ".d"])
+            mreg, ms = (3 if which[0] == "d" else mreg), (10 if which[1] == "d" else ms)
+            lines = [f"swarm {'d' if which[0] == 'd' else mreg} {'d' if which[1] == 'd' else ms} {rng.choice(['d', '1/2'])}"]
         live = rng.random() < 0.4        # budgets re-assigned on the live swarm between supervise calls
         for i in range(rng.choice([1, 1, 2, 3])):
             if live and (i > 0 or rng.random() < 0.5):
@@ -278,6 +296,9 @@ class C18(Prop):
 
     def _gen_tools(self, rng, op="tools"):
         mi = rng.choice(self.LIMS + [10])
+        named = rng.random() >= 0.06          # else: max_iterations is not named (default 10)
+        if not named:
+            mi = 10
         n = max(mi, 0) + 2
         fam = rng.choice(["forever", "forever", "stopat", "none", "raise", "random"])
         k = rng.randint(0, n)
@@ -289,7 +310,7 @@ class C18(Prop):
         # hasSchemas: 1 / 0 stub mitochondria with / without schemas; 2 / 3 the REAL Mitochondria with / without a tool
         r = rng.random()
         hs = "2" if r < 0.35 else "3" if r < 0.4 else "0" if r < 0.47 else "1"
-        return (f"{op} {mi} {show_bool(rng.random() < 0.85)} {hs} "
+        return (f"{op} {mi if named else 'd'} {show_bool(rng.random() < 0.85)} {hs} "
                 f"{show_bool(rng.random() < 0.9)} {ps} {ts} {cs}")
 
     def _gen_nucleus_live(self, rng):
@@ -485,7 +506,7 @@ class C18(Prop):
         return "ok"
 
     def _heal(self, t):
-        loop, box = self._new_loop(intd(t[1]), float_of(t[2]), t[3] == "real")
+        loop, box = self._new_loop(lim(t[1]), flo(t[2]), t[3] == "real")
         return self._heal_on(loop, box, script_of(t[4]), script_of(t[5]))
 
     def _hcall(self, st, t):
@@ -579,8 +600,14 @@ class C18(Prop):
                 return box["adv"].summarize(mem)
             return summ
         box["make_fac"], box["make_summ"] = make_fac, make_summ
-        sw = self.rs.RegenerativeSwarm(worker_factory=make_fac(0), summarizer=make_summ(0), entropy_threshold=thr,
-                                       max_steps_per_worker=ms, max_regenerations=mreg, silent=True)
+        kw = {}
+        if thr is not None:
+            kw["entropy_threshold"] = thr
+        if ms is not None:
+            kw["max_steps_per_worker"] = ms
+        if mreg is not None:
+            kw["max_regenerations"] = mreg
+        sw = self.rs.RegenerativeSwarm(worker_factory=make_fac(0), summarizer=make_summ(0), silent=True, **kw)
         return sw, box
 
     def _sset(self, st, t):
@@ -765,7 +792,12 @@ class C18(Prop):
         """`tools …`: a fresh Nucleus; `ntools …` (st given): the live Nucleus of this case, whose provider attribute is
         re-assigned for the call and whose transcription_log keeps growing.  hasSchemas 2 / 3 = the REAL
         Mitochondria (with the scripted tool registered / with no tool at all) instead of the stub."""
-        mi, ae, hsch, hapi = intd(t[1]), t[2] == "1", t[3] in ("1", "2"), t[4] == "1"
+        mi, ae, hsch, hapi = lim(t[1]), t[2] == "1", t[3] in ("1", "2"), t[4] == "1"
+        kw_mi = {} if mi is None else {"max_iterations": mi}
+        if mi is None:      # the budget is not named: the default the signature declares is in force (10 if it hides it)
+            import inspect
+            d = inspect.signature(self.nu.Nucleus.transcribe_with_tools).parameters["max_iterations"].default
+            mi = d if isinstance(d, int) and not isinstance(d, bool) else 10
         real_mito = t[3] in ("2", "3")
         ps, ts, cs = script_of(t[5]), script_of(t[6]), script_of(t[7])
         evs = []
@@ -885,7 +917,7 @@ class C18(Prop):
             nuc.provider = provider
         exc = res = None
         try:
-            res = nuc.transcribe_with_tools("Q<7>", mito, max_iterations=mi, auto_execute=ae)
+            res = nuc.transcribe_with_tools("Q<7>", mito, auto_execute=ae, **kw_mi)
         except Exception as e:   # noqa
             exc = e
         log = "[" + ",".join(f"{view(x.prompt)}:{getattr(x.response, 'rid', '?')}" for x in nuc.transcription_log) + "]"
@@ -981,8 +1013,10 @@ class C18(Prop):
             if len(t) == 6 and t[0] == "heal":
                 o, info = self._heal(t)
             elif len(t) == 4 and t[0] == "swarm":
-                st["swarm"], st["box"] = self._new_swarm(intd(t[1]), intd(t[2]), float_of(t[3]))
-                st["cfg"] = (intd(t[1]), intd(t[2]))
+                st["swarm"], st["box"] = self._new_swarm(lim(t[1]), lim(t[2]), flo(t[3]))
+                # a limit that was not named: whatever the fresh object's public attribute says is in force
+                st["cfg"] = (st["swarm"].max_regenerations if lim(t[1]) is None else lim(t[1]),
+                             st["swarm"].max_steps_per_worker if lim(t[2]) is None else lim(t[2]))
                 o = "ok"
             elif len(t) == 4 and t[0] == "supervise":
                 o, info = self._supervise(st, t)
@@ -996,7 +1030,7 @@ class C18(Prop):
             elif len(t) == 3 and t[0] == "nset":
                 o = self._nset(st, t)
             elif len(t) == 4 and t[0] == "loop":
-                st["loop"], st["lbox"] = self._new_loop(intd(t[1]), float_of(t[2]), t[3] == "real")
+                st["loop"], st["lbox"] = self._new_loop(lim(t[1]), flo(t[2]), t[3] == "real")
                 o = "ok"
             elif len(t) == 3 and t[0] == "hset" and (t[1] in ("mr", "decay") or t[2] == "new"):
                 o = self._hset(st, t)
